@@ -94,8 +94,8 @@ def make_map(src, scheme, rnd, dictionary):
             if a not in ids and b not in ids and a not in used and b not in used:
                 m[fields[k]], m[fields[k + 1]] = a, b
                 used.update((a, b))
-        for k in range(0, len(variants) - 1, 2):
-            m[variants[k]], m[variants[k + 1]] = "Ab", "AB"
+        if len(variants) >= 2 and "Ab" not in ids and "AB" not in ids:
+            m[variants[0]], m[variants[1]] = "Ab", "AB"
     elif scheme == "prelude":
         for t in types:
             n = pick(PRELUDE_TYPES)
